@@ -62,7 +62,7 @@ func (tb *TB) linearize(t *Term, depth int) *linForm {
 	case OpMul:
 		if t.A[1].IsConst() {
 			k := big.NewInt(int64(t.A[1].C))
-			if k.IsInt64() && k.CmpAbs(big.NewInt(1<<32)) < 0 {
+			if k.IsInt64() && k.CmpAbs(big.NewInt(1<<46)) < 0 {
 				l.addScaled(tb.linearize(t.A[0], depth+1), k)
 				return l
 			}
